@@ -7,7 +7,7 @@ use std::convert::TryFrom;
 use std::str::FromStr;
 use unic_locale::subtags::{Language, Region, Script, Variant};
 
-pub const RULE: &str = "Domain: every byte string of length 0-3 (exhaustive, 16 843 009 strings), every string of length 4-5 (quick) / 4-6 (thorough) over a 24-byte boundary alphabet (exhaustive), lengths 6-9 over a 6-byte alphabet (exhaustive), every single-byte substitution (256 values x position) of valid subtags of every legal length, and weighted random bytes (proptest). Each string is fed to Language/Script/Region/Variant::from_bytes and compared with byte-level predicates written from the EBNF; on accept as_str/Display/==&str/FromStr must expose lower/Title/UPPER/lower text. Non-trivial = accepted by at least one type, or rejected although its length is one some type accepts and every byte is ASCII alphanumeric (class boundary). Enumerated cases are distinct by construction; random ones are counted through a hash set.";
+pub const RULE: &str = "Domain: every byte string of length 0-3 (exhaustive, 16 843 009 strings), every string of length 4-6 over a 24-byte boundary alphabet (exhaustive), lengths 6-9 over a 6-byte alphabet (exhaustive), every single-byte substitution (256 values x position) of valid subtags of every legal length, and weighted random bytes (proptest). Each string is fed to Language/Script/Region/Variant::from_bytes and compared with byte-level predicates written from the EBNF; on accept as_str/Display/==&str/FromStr must expose lower/Title/UPPER/lower text. Non-trivial = accepted by at least one type, or rejected although its length is one some type accepts and every byte is ASCII alphanumeric (class boundary). Enumerated cases are distinct by construction; random ones are counted through a hash set.";
 
 pub const BOUNDARY: &[u8] = &[
     b'a', b'z', b'A', b'Z', b'm', b'0', b'9', b'5', b'@', b'[', b'`', b'{', b'/', b':', b'-', b'_', b'.', b' ',
@@ -333,7 +333,7 @@ pub fn run(cfg: &Cfg) -> Stats {
     total.subspace("all byte strings of length 0..=3", n3, true);
 
     // boundary alphabet, lengths 4..=5 | 4..=6
-    let maxlen = cfg.pick(5u32, 6u32);
+    let maxlen = cfg.pick(6u32, 6u32);
     for len in 4..=maxlen {
         let n = (BOUNDARY.len() as u64).pow(len);
         let s = par_range(n, |mut i, st| {
@@ -420,7 +420,7 @@ pub fn run(cfg: &Cfg) -> Stats {
     total.subspace("sanitisation slips of 15 subtags (padding, case-folding look-alikes) und-prefixed words, and strings whose length wraps to a legal one in 8 / 16 bits", nextra, true);
 
     // random
-    let n = cfg.pick(300_000, 5_000_000);
+    let n = cfg.pick(2_000_000, 8_000_000);
     let strat = proptest::collection::vec(crate::gen::s_byte(), 0..10);
     let s = run_strategy(&strat, cfg.seed, "c15-random", n, |b, st| check(b, st, Some(maxlen)));
     total = total.merge(s);
